@@ -7,6 +7,8 @@ R2  every path from the first registration attempt to the return runs the dequeu
     exactly when it was allocated.
 R3  the sleep happens only while min(ready times, deadline) > 0, inside a loop that re-polls every object's ready time after each return of the semaphore.
 R5  the index returned is decided by the dequeue results (tested, and guarding a definition of the returned value).
+R6  the dequeue function of every built-in waitable kind takes the wakers' lock on every path (= C13.R4), so that after the dequeue loop the
+    record is registered nowhere.
 R4  cv side of the registration: records woken by signal/broadcast are unlinked first and, unless proven pooled, woken under the cv spinlock (C04.R3/R5).
 Which index is reported under races is not decided."""
 from .. import util, ir as IR, wakeshape
@@ -174,6 +176,13 @@ def run(ctx, rep):
     rep.rule('C11.R4', 'cv wakers unlink before waking and wake non-pooled records under the spinlock')
     rep.rule('C11.R5', 'the returned index is derived from the dequeue results')
     check_dequeue_result(mod, rep, 'C11.R5')
+    # R6: "on return it is registered on none of the objects".  nsync_wait_n calls dequeue for every registered record and then discards the
+    # records; that leaves nothing registered only if each kind's dequeue really settles the record's state under the lock its wakers use
+    # (a path that skips the lock can return while a waker still has the record linked, or is about to post it) - the rule of C13.R4.
+    from . import C13
+    from .. import mumodel as _mm
+    _eng, _runs = _mm.analyse(ctx)
+    C13.check_dequeuers(ctx, mod, _eng, _runs, rep, rids=('C11.R6', None))
     cfg = cfg_of(fn)
     enq = slot_calls(mod, fn, 'enqueue')
     deq = slot_calls(mod, fn, 'dequeue')
